@@ -305,6 +305,12 @@ func (y *tblSys) c09CheckList(snap tblSnap, key string, raw string, present bool
 
 // Unit "table=<recipe>;cfg=<plain|ps>", H = ["<method>", "<target>"]: all wants x source families.
 func runC09(t *testing.T, c explore.Case) (res explore.Result) {
+	if strings.HasPrefix(c.Unit, "lin;") {
+		if linReplays["C09"] == nil {
+			return explore.Result{Viol: "HARNESS: serializability tier not built"}
+		}
+		return linReplays["C09"](t, c)
+	}
 	var recipe, cfgName string
 	for _, kv := range strings.Split(c.Unit, ";") {
 		if v, ok := strings.CutPrefix(kv, "table="); ok {
@@ -444,6 +450,9 @@ func TestC09(t *testing.T) {
 	tables := c09Tables(w.Thorough())
 	w.Bound("tables", len(tables))
 	idx := 0
+	if lt := linTiers["C09"]; lt != nil {
+		lt(t, w, &idx)
+	}
 	for _, cfgName := range []string{"plain", "ps"} {
 		for ti, tb := range tables {
 			if cfgName == "ps" && ti%7 != 0 {
